@@ -654,6 +654,10 @@ def draw_world(ctx, src_dir, *, allow_faults, n_items, modes=MODES, force_mode=N
         cfg["stragglers"].add(ch.draw(workers, "straggler"))
     if mode == "interleaved":
         cfg["quantum_policy"] = ("coarse", "fine", "mixed", "targeted")[ch.draw(4, "quantum_policy")]
+        # pre-emption needs >= 2 jobs in flight: dask batches `chunksize` tasks into one job
+        if ch.draw(4, "il_keep_chunksize") != 3:
+            chunksize = 1
+        workers = max(2, workers)
     fault = None
     if allow_faults:
         kind = ("none", "alloc", "kill")[ch.draw(3, "sched_fault")]
